@@ -216,10 +216,13 @@ class _GuardWalk:
     def __init__(self, fn, sides, allow_pre, helpers):
         self.fn, self.sides, self.allow_pre, self.helpers = fn, sides, allow_pre, helpers
         self.env: dict = {}          # local name -> (Gallina expr, may raise?, number of guards emitted when bound, path)
+        self.fenv: dict = {}         # local name -> formula made of `isinstance(<range>, FitRange3D)` facts only
         self.out: list[str] = []
 
     # -- conditions -> formula: ('lit', neg, node) | ('isinst', side) | ('none', bound) | ('and'|'or', [..]) | ('not', f)
     def formula(self, t):
+        if isinstance(t, ast.Name) and t.id in self.fenv:
+            return self.fenv[t.id]
         if isinstance(t, ast.UnaryOp) and isinstance(t.op, ast.Not):
             return ("not", self.formula(t.operand))
         if isinstance(t, ast.BoolOp):
@@ -321,6 +324,16 @@ class _GuardWalk:
         tg = st.targets[0] if isinstance(st, ast.Assign) else st.target
         val = st.value
         env0 = self.plain_env(st)
+        # a flag: `both_3d = isinstance(t, FitRange3D) and isinstance(o, FitRange3D)` (cannot raise, bound once, top level)
+        if isinstance(tg, ast.Name) and (isinstance(val, ast.BoolOp) or (isinstance(val, ast.Call) and ast.unparse(val.func) == "isinstance")):
+            f = self.formula(val)
+
+            def only_isinst(x):
+                return x[0] == "isinst" or (x[0] == "and" and all(only_isinst(y) for y in x[1]))
+            if not only_isinst(f) or path or tg.id in self.fenv or tg.id in self.env or tg.id in BOUNDS or tg.id in self.sides:
+                fail(st, f"{self.fn.name}: unsupported flag")
+            self.fenv[tg.id] = f
+            return
 
         def new(name, ex, src):
             if name in BOUNDS or name in self.sides:
